@@ -775,6 +775,132 @@ def _collection_add(out, mt, seqs, order):
         bump(out, "op_detail", "SequenceCollection:add:perm")
 
 
+def _plain_seq_op(mt, text, op):
+    """a sequence operation on the plain displayed string: slice with stride (complemented when the stride is
+    negative on a nucleic acid) or reverse complement"""
+    tab = DNA_COMP if mt == "dna" else RNA_COMP if mt == "rna" else None
+    if op[0] == "rc":
+        return text[::-1].translate(tab)
+    r = text[op[1] : op[2] : op[3]]
+    return r.translate(tab) if (op[3] or 1) < 0 and tab else r
+
+
+def _rand_seq_history(rng, mt, n):
+    ops = []
+    for _ in range(rng.choice([0, 1, 1, 2])):
+        r = rng.random()
+        if r < 0.35 and mt != "protein":
+            ops.append(["rc"])
+        else:
+            step = rng.choice([None, None, 1, 2, 3, -1, -1, -2])
+            ops.append(["s", rng.choice([None, 0, 1, 2, -3]), rng.choice([None, n, n - 1, -1]), step])
+    return ops
+
+
+def _mk_seq_obj(kind, mt, text, name):
+    if kind == "old":
+        import cogent3
+
+        return cogent3.make_seq(text, name=name, moltype=mt)
+    from cogent3.core import new_moltype
+
+    return new_moltype.get_moltype(mt).make_seq(seq=text, name=name)
+
+
+def _apply_seq_history(seq, ops):
+    for op in ops:
+        seq = seq.rc() if op[0] == "rc" else seq[slice(op[1], op[2], op[3])]
+    return seq
+
+
+def _is_rev(ops):
+    rev = False
+    for op in ops:
+        if op[0] == "rc" or (op[3] or 1) < 0:
+            rev = not rev
+    return rev
+
+
+def _spec_seq_add(out, rng, count):
+    """`+` of sequences and of plain SequenceCollections whose operands carry histories of their own (rc'd, sliced,
+    strided, rc of a slice) on EITHER side: the result is the per-name concatenation of the DISPLAYED strings"""
+    import cogent3
+
+    cases = []
+    # deterministic: every pair of single-op histories on a fixed pair of sequences
+    single = [[], [["rc"]], [["s", 1, None, None]], [["s", None, None, -1]], [["s", None, None, 2]], [["s", 1, 6, None], ["rc"]],
+              [["rc"], ["s", 1, None, None]], [["s", None, None, -2]]]
+    for hl in single:
+        for hr in single:
+            cases.append(("dna", {"a": ("ACGGTTRA", hl, hr), "b": ("TTYACGCA", hl, hr)}))
+    for _ in range(count):
+        mt = rng.choice(["dna", "dna", "rna", "protein"])
+        rows = {}
+        for i in range(rng.randint(1, 3)):
+            n = rng.randint(1, 12)
+            text = "".join(rng.choice(CANON[mt] + (DEGEN[mt][:3] if rng.random() < 0.3 else "")) for _ in range(n))
+            rows[f"s{i}"] = (text, _rand_seq_history(rng, mt, n), _rand_seq_history(rng, mt, n))
+        cases.append((mt, rows))
+    for mt, rows in cases:
+        want = {}
+        for nm, (text, hl, hr) in rows.items():
+            l = r = text
+            for op in hl:
+                l = _plain_seq_op(mt, l, op)
+            for op in hr:
+                r = _plain_seq_op(mt, r, op)
+            want[nm] = l + r
+        revs = {(("rev" if _is_rev(hl) else "fwd"), ("rev" if _is_rev(hr) else "fwd")) for _, hl, hr in rows.values()}
+        cls = "+".join(sorted(f"left-{a}:right-{b}" for a, b in revs))
+        inp = dict(moltype=mt, seqs={nm: dict(text=t, left=hl, right=hr) for nm, (t, hl, hr) in rows.items()})
+        # Sequence + Sequence, old and new style
+        for kind in ("old", "new"):
+            for nm, (text, hl, hr) in rows.items():
+                out["evaluations"] += 1
+                try:
+                    got = str(_apply_seq_history(_mk_seq_obj(kind, mt, text, nm), hl) + _apply_seq_history(_mk_seq_obj(kind, mt, text, nm), hr))
+                except Exception as e:
+                    got = {"err": type(e).__name__}
+                a, b = ("rev" if _is_rev(hl) else "fwd"), ("rev" if _is_rev(hr) else "fwd")
+                if got != want[nm]:
+                    add_failure(out, "spec", "Sequence + Sequence is not the concatenation of the displayed strings",
+                                dict(inp, impl=kind, name=nm), want[nm], got, sig=f"Sequence:{kind}:add:left-{a}:right-{b}")
+                else:
+                    bump(out, "op_detail", f"Sequence:{kind}:add:left-{a}:right-{b}")
+        # SequenceCollection + SequenceCollection built from those sequence objects (their views travel with them)
+        out["evaluations"] += 1
+        try:
+            left = cogent3.make_unaligned_seqs({nm: _apply_seq_history(_mk_seq_obj("old", mt, t, nm), hl) for nm, (t, hl, hr) in rows.items()}, moltype=mt)
+            right = cogent3.make_unaligned_seqs({nm: _apply_seq_history(_mk_seq_obj("old", mt, t, nm), hr) for nm, (t, hl, hr) in rows.items()}, moltype=mt)
+            got = (left + right).to_dict()
+        except Exception as e:
+            got = {"err": type(e).__name__}
+        if got != want:
+            add_failure(out, "spec", "SequenceCollection + does not concatenate the displayed sequences of the same name",
+                        inp, want, got, sig=f"SequenceCollection:add:{cls}")
+        else:
+            bump(out, "op_detail", f"SequenceCollection:add:{cls}")
+        # collection-level rc on either side
+        if mt != "protein":
+            base = {nm: t for nm, (t, _, _) in rows.items()}
+            tab = DNA_COMP if mt == "dna" else RNA_COMP
+            rcs = {nm: t[::-1].translate(tab) for nm, t in base.items()}
+            for lrev, rrev in ((False, True), (True, False), (True, True)):
+                out["evaluations"] += 1
+                try:
+                    c = cogent3.make_unaligned_seqs(dict(base), moltype=mt)
+                    got = ((c.rc() if lrev else c) + (c.rc() if rrev else c)).to_dict()
+                except Exception as e:
+                    got = {"err": type(e).__name__}
+                w = {nm: (rcs[nm] if lrev else base[nm]) + (rcs[nm] if rrev else base[nm]) for nm in base}
+                sig = f"SequenceCollection:add:coll-rc:left-{'rev' if lrev else 'fwd'}:right-{'rev' if rrev else 'fwd'}"
+                if got != w:
+                    add_failure(out, "spec", "coll + coll.rc() is not the per-name concatenation with the reverse complement",
+                                dict(moltype=mt, seqs=base, left_rc=lrev, right_rc=rrev), w, got, sig=sig)
+                else:
+                    bump(out, "op_detail", sig)
+
+
 def _regression_corpus(out, rng):
     """witnesses of repaired defects (status "fixed" in known_findings.d/C03.json) are replayed first on every run;
     a failure is an ordinary spec failure (fixed entries are never matched as known)"""
@@ -856,6 +982,7 @@ def spec_check(ctx, budget):
                     for arr in (False, True):
                         _run_history(out, rng, mt, rows, [["slice", a, b], ["copy", k1], ["rc"], ["copy", k2], ["slice", 1, None]],
                                      arr, check_methods=False)
+    _spec_seq_add(out, rng, 60 * budget)
     # planned histories: every class of the property's quantifier appears on purpose, on both classes
     for it in range(N_PLANNED * budget):
         name, plan = PLANS[it % len(PLANS)]
